@@ -36,6 +36,11 @@ partial def collect (e : Expr) (p : Expr → Bool) : Array Expr :=
   go e #[]
 end Lean.Expr
 
+/-- `evalTactic` without error recovery: a failing nested `by` block raises instead of logging an error and
+continuing with `sorry` (so that `try … catch` and `first` see the failure) -/
+def evalTacticNR (stx : Syntax) : TacticM Unit :=
+  Term.withoutErrToSorry <| Tactic.withoutRecover <| evalTactic stx
+
 /-- clear the join-point definitions `mvcgen` leaves in the context -/
 elab "clear_jps" : tactic => do
   let g ← getMainGoal
@@ -158,12 +163,12 @@ def addLenFacts (h : TSyntax `term) (ty : Expr) : TacticM Unit := do
   let bTy ← inferType b
   let some lo ← evalNat? (mkApp3 (mkConst ``Prod.fst [0, 0]) (bTy.getArg! 0) (bTy.getArg! 1) b) | return
   let loStx := Syntax.mkNumLit (Nat.repr lo)
-  evalTactic (← `(tactic| have hlo__ : $loStx ≤ $nStx := Py.Re.LenIn.lower $h))
+  evalTacticNR (← `(tactic| have hlo__ : $loStx ≤ $nStx := Py.Re.LenIn.lower $h))
   let some (some hi) ← evalOptNat? (mkApp3 (mkConst ``Prod.snd [0, 0]) (bTy.getArg! 0) (bTy.getArg! 1) b) | return
   let hiStx := Syntax.mkNumLit (Nat.repr hi)
-  evalTactic (← `(tactic| have hhi__ : $nStx ≤ $hiStx := Py.Re.LenIn.upper $h rfl))
+  evalTacticNR (← `(tactic| have hhi__ : $nStx ≤ $hiStx := Py.Re.LenIn.upper $h rfl))
   if lo == hi then
-    evalTactic (← `(tactic| have hleq__ : $nStx = $hiStx := by omega))
+    evalTacticNR (← `(tactic| have hleq__ : $nStx = $hiStx := by omega))
 
 end Py.VcImpl
 
@@ -200,10 +205,10 @@ elab "py_rx_facts" : tactic => withMainContext do
       else pure none
     if let some g := gate? then
       try
-        evalTactic (← `(tactic| have hrx__ := Py.Re.match_gate (by rfl) (by decide) $g (by py_nonl)))
-        evalTactic (← `(tactic| have hrxa__ := hrx__.1))
-        evalTactic (← `(tactic| have hrxl__ := hrx__.2))
-        evalTactic (← `(tactic| clear hrx__))
+        evalTacticNR (← `(tactic| have hrx__ := Py.Re.match_gate (by rfl) (by decide) $g (by py_nonl)))
+        evalTacticNR (← `(tactic| have hrxa__ := hrx__.1))
+        evalTacticNR (← `(tactic| have hrxl__ := hrx__.2))
+        evalTacticNR (← `(tactic| clear hrx__))
         -- numeric bounds
         withMainContext do
           for d in (← getLCtx) do
@@ -212,7 +217,7 @@ elab "py_rx_facts" : tactic => withMainContext do
             if ty.isAppOfArity ``Py.Re.LenIn 2 then
               let dS ← Term.exprToSyntax (mkFVar d.fvarId)
               addLenFacts dS ty
-              evalTactic (← `(tactic| clear $(⟨dS⟩):term)) <|> pure ()
+              evalTacticNR (← `(tactic| clear $(⟨dS⟩):term)) <|> pure ()
       catch _ => pure ()
     -- group text
     if lhs.isAppOfArity ``Py.Re.Match.groupNamedR 2 && rhs.isAppOfArity ``Except.ok 3 then
@@ -220,10 +225,10 @@ elab "py_rx_facts" : tactic => withMainContext do
       for (m', run) in runs do
         if m' == m then
           try
-            evalTactic (← `(tactic| have hrx__ := Py.Re.group_gate_named $run $hS rfl (by decide) rfl (by decide)))
-            evalTactic (← `(tactic| have hrxa__ := hrx__.1))
-            evalTactic (← `(tactic| have hrxl__ := hrx__.2))
-            evalTactic (← `(tactic| clear hrx__))
+            evalTacticNR (← `(tactic| have hrx__ := Py.Re.group_gate_named $run $hS rfl (by decide) rfl (by decide)))
+            evalTacticNR (← `(tactic| have hrxa__ := hrx__.1))
+            evalTacticNR (← `(tactic| have hrxl__ := hrx__.2))
+            evalTacticNR (← `(tactic| clear hrx__))
             withMainContext do
               for d in (← getLCtx) do
                 if d.isImplementationDetail then continue
@@ -231,7 +236,7 @@ elab "py_rx_facts" : tactic => withMainContext do
                 if ty.isAppOfArity ``Py.Re.LenIn 2 then
                   let dS ← Term.exprToSyntax (mkFVar d.fvarId)
                   addLenFacts dS ty
-                  evalTactic (← `(tactic| clear $(⟨dS⟩):term)) <|> pure ()
+                  evalTacticNR (← `(tactic| clear $(⟨dS⟩):term)) <|> pure ()
           catch _ => pure ()
           break
 
@@ -261,7 +266,7 @@ elab "py_rx_exc" : tactic => withMainContext do
       let hS ← Term.exprToSyntax (mkFVar ldecl.fvarId)
       for (m', run) in runs do
         if m' == m then
-          evalTactic (← `(tactic| (
+          evalTacticNR (← `(tactic| (
             obtain ⟨t__, ht__, _⟩ := Py.Re.Match.groupNamedR_ok_of_setsGroup (name := $nameS) $run rfl rfl (by decide) (by decide)
             exact absurd (ht__.symm.trans $hS) (by intro hh__; cases hh__))))
           return
@@ -310,7 +315,17 @@ elab "py_facts" : tactic => withMainContext do
     let kS ← Term.exprToSyntax (e.getArg! 4)
     let fS ← Term.exprToSyntax (e.getArg! 5)
     try
-      evalTactic (← `(tactic| have hgd__ := Py.dictGetD_small (D := $dS) $kS $fS (by decide) (by decide)))
+      evalTacticNR (← `(tactic| have hgd__ := Py.dictGetD_small (D := $dS) $kS $fS (by decide) (by decide)))
+    catch _ => pure ()
+  -- registry lookups of a non-empty string have at least one part
+  let nterms := (tgt.collect (fun e => e.isAppOfArity ``Spec.NumDB.info 2 || e.isAppOfArity ``Spec.NumDB.split 2) : Array Expr)
+  for e in nterms do
+    let dS ← Term.exprToSyntax (e.getArg! 0)
+    let xS ← Term.exprToSyntax (e.getArg! 1)
+    let lem := mkIdent (if e.isAppOfArity ``Spec.NumDB.info 2 then ``Py.numdb_info_length_pos else ``Py.numdb_split_length_pos)
+    try
+      evalTacticNR (← `(tactic| have hnd__ := $lem $dS (n := $xS)
+        (List.ne_nil_of_length_pos (by first | assumption | omega | (simp only [List.length_cons]; omega) | (simp (config := {decide := false}) [slice_length, loIdx, hiIdx] at *; omega)))))
     catch _ => pure ()
   g ← getMainGoal
   for ldecl in ← getLCtx do
@@ -320,7 +335,7 @@ elab "py_facts" : tactic => withMainContext do
       let hS ← Term.exprToSyntax (mkFVar ldecl.fvarId)
       try
         setGoals [g]
-        evalTactic (← `(tactic| have hdv__ := Py.dict_val_small (by decide) $hS))
+        evalTacticNR (← `(tactic| have hdv__ := Py.dict_val_small (by decide) $hS))
         g ← getMainGoal
       catch _ => pure ()
       continue
@@ -337,13 +352,69 @@ elab "py_facts" : tactic => withMainContext do
       pure g
   replaceMainGoal [g]
 
+/-- for-loop cursors: `h : xs = pref ++ cur :: suff` gives `cur ∈ xs` -/
+macro "py_cursor" : tactic => `(tactic|
+  (try (have hcur__ := Py.mem_of_eq_append_cons ‹_ = _ ++ _ :: _›)))
+
+/-- drop the (trivial) loop-invariant hypotheses: they mention the cursor structure, whose `property` field depends on
+the cursor equation and blocks rewriting it -/
+elab "py_clear_inv" : tactic => withMainContext do
+  let mut g ← getMainGoal
+  for ldecl in (← getLCtx).decls.toArray.reverse do
+    let some ldecl := ldecl | continue
+    if ldecl.isImplementationDetail then continue
+    let t ← instantiateMVars ldecl.type
+    if (t.find? (fun e => e.isAppOf ``List.Cursor.mk)).isSome then
+      try g ← g.clear ldecl.fvarId catch _ => pure ()
+  replaceMainGoal [g]
+
+/-- substitute the equations about the variables `mvcgen` introduced (`r✝ = e`), not those about the theorem's own
+variables (so that `strip r✝ = v` with `r✝ = cleanP v d` becomes the fixed-point equation `strip (cleanP v d) = v`) -/
+elab "py_subst_inacc" : tactic => do
+  let mut fuel := 40
+  let mut progress := true
+  while progress && fuel > 0 do
+    fuel := fuel - 1
+    progress := false
+    let g ← getMainGoal
+    let r ← g.withContext do
+      for ldecl in ← getLCtx do
+        if ldecl.isImplementationDetail then continue
+        let t ← instantiateMVars ldecl.type
+        let some (_, lhs, rhs) := t.eq? | continue
+        for (x, e) in [(lhs, rhs), (rhs, lhs)] do
+          if x.isFVar && !e.containsFVar x.fvarId! then
+            let d ← x.fvarId!.getDecl
+            if d.userName.hasMacroScopes && !d.isLet then
+              try
+                let (_, g') ← substCore g ldecl.fvarId (symm := x == rhs) (tryToSkip := true)
+                return some g'
+              catch _ => continue
+      return none
+    if let some g' := r then
+      replaceMainGoal [g']
+      progress := true
+
+/-- rewrite with fixed-point equations `T = v` (`v` a variable occurring in `T`, e.g. `strip (cleanP v d) = v` from
+`compact v = ok v`): every gate and every re-compaction is then stated about `v` itself -/
+elab "py_fixpoint_rw" : tactic => withMainContext do
+  for ldecl in ← getLCtx do
+    if ldecl.isImplementationDetail then continue
+    let t ← instantiateMVars ldecl.type
+    let some (_, lhs, rhs) := t.eq? | continue
+    unless rhs.isFVar && !lhs.isFVar && lhs.containsFVar rhs.fvarId! do continue
+    unless (← inferType rhs).isAppOfArity ``List 1 do continue
+    let hS ← Term.exprToSyntax (mkFVar ldecl.fvarId)
+    try evalTacticNR (← `(tactic| simp only [$hS:term] at *)) catch _ => pure ()
+    return
+
 /-- `re.search` with a `^` pattern is `re.match` -/
 macro "py_rx_norm" : tactic => `(tactic|
   (try simp (disch := decide) only [Py.Re.search_eq_match] at *))
 
 macro "py_prep" : tactic => `(tactic|
-  (intros; py_zeta; all_goals py_cases_and; all_goals (try subst_vars); all_goals py_norm; all_goals py_cases_and;
-   all_goals (try subst_vars); all_goals py_rx_norm; all_goals (try py_rx_facts); all_goals py_recompact; all_goals py_facts))
+  (intros; py_clear_inv; py_zeta; all_goals (try py_subst_inacc); all_goals (try py_fixpoint_rw); all_goals py_cases_and; all_goals (try subst_vars); all_goals py_norm; all_goals py_cases_and;
+   all_goals (try subst_vars); all_goals py_rx_norm; all_goals (try py_rx_facts); all_goals py_recompact; all_goals py_facts; all_goals py_cursor))
 
 /-! ## step 3: strings of known length -/
 
@@ -406,13 +477,13 @@ elab "py_explode" : tactic => withMainContext do
       let tStx ← withMainContext <| Term.exprToSyntax t
       let nStx := Syntax.mkNumLit (toString n)
       if t.isFVar then
-        evalTactic (← `(tactic| have hN__ : List.length $tStx = $nStx := by omega))
-        evalTactic (← `(tactic| py_explode_go hN__))
+        evalTacticNR (← `(tactic| have hN__ : List.length $tStx = $nStx := by omega))
+        evalTacticNR (← `(tactic| py_explode_go hN__))
       else
-        evalTactic (← `(tactic| generalize hgen__ : $tStx = s__ at *))
-        evalTactic (← `(tactic| try clear hgen__))
-        evalTactic (← `(tactic| have hN__ : List.length s__ = $nStx := by omega))
-        evalTactic (← `(tactic| py_explode_go hN__))
+        evalTacticNR (← `(tactic| generalize hgen__ : $tStx = s__ at *))
+        evalTacticNR (← `(tactic| try clear hgen__))
+        evalTacticNR (← `(tactic| have hN__ : List.length s__ = $nStx := by omega))
+        evalTacticNR (← `(tactic| py_explode_go hN__))
       progress := true
       did := true
   unless did do throwError "py_explode: no string of known length"
@@ -431,6 +502,13 @@ elab "py_split_len" : tactic => liftMetaTactic fun g => do
     if ldecl.isImplementationDetail then return false
     let t ← instantiateMVars ldecl.type
     if t.isAppOfArity ``Or 2 then isLenOr t else return false
+
+/-- list constructions only (`zip`, `enumerate`, `chars`, `++`, `reverse` of explicit lists): safe on goals that still
+contain operations on a loop variable that has not been case-split yet -/
+macro "py_eval0" : tactic => `(tactic|
+  (try simp (config := {decide := false}) only [chars_cons, chars_nil, enumerate_cons, enumerate_nil, List.zip_cons_cons,
+    List.zip_nil_left, List.zip_nil_right, List.reverse_cons, List.reverse_nil, List.nil_append, List.cons_append,
+    Int.reduceAdd, Int.zero_add, Int.add_zero] at *))
 
 /-- evaluate the sequence operations on explicit lists -/
 macro "py_eval" : tactic => `(tactic|
@@ -565,6 +643,9 @@ elab "py_char_any" : tactic => withMainContext do
       if l.isAppOfArity ``List.contains 4 then pure (l.getArg! 3, ``Py.of_contains)
       else if l.isAppOfArity ``Py.isAsciiDigit 1 then pure (l.getArg! 0, ``Py.of_isAsciiDigit)
       else if l.isAppOfArity ``Py.isAsciiUpper 1 then pure (l.getArg! 0, ``Py.of_isAsciiUpper)
+      else if l.isAppOfArity ``Py.dictHas 5 && (l.getArg! 4).isAppOfArity ``List.cons 3
+          && ((l.getArg! 4).getArg! 2).isAppOfArity ``List.nil 1 then
+        pure ((l.getArg! 4).getArg! 1, ``Py.of_dictHas_single)
       else continue
     unless c.isFVar && lhs.containsFVar c.fvarId! do continue
     let q ← mkLambdaFVars #[c] lhs
@@ -572,7 +653,7 @@ elab "py_char_any" : tactic => withMainContext do
     let hS ← Term.exprToSyntax (mkFVar ldecl.fvarId)
     let lemS := mkIdent lem
     try
-      evalTactic (← `(tactic| exact $lemS (Q := $qS) (by decide) $hS))
+      evalTacticNR (← `(tactic| exact $lemS (Q := $qS) (by decide) $hS))
       return
     catch _ => continue
   for ldecl in ← getLCtx do
@@ -596,7 +677,7 @@ elab "py_char_any" : tactic => withMainContext do
     let hS ← Term.exprToSyntax (mkFVar ldecl.fvarId)
     let lemS := mkIdent lem
     try
-      evalTactic (← `(tactic| exact $lemS (Q := $qS) (by decide) $hS))
+      evalTacticNR (← `(tactic| exact $lemS (Q := $qS) (by decide) $hS))
       return
     catch _ => continue
   throwError "py_char_any: no class fact applies"
@@ -606,9 +687,9 @@ macro "py_char" : tactic => `(tactic| first
   | assumption
   | exact Py.contains_of_isAsciiDigit (by decide) ‹_›
   | exact Py.contains_of_isAsciiUpper (by decide) ‹_›
-  | exact Py.isAsciiDigit_of_contains (by decide) ‹_›
-  | exact Py.isAsciiAlnum_of_contains (by decide) ‹_›
-  | exact Py.contains_of_contains (by decide) ‹_›
+  | (refine Py.isAsciiDigit_of_contains ?_ ‹_›; decide)
+  | (refine Py.isAsciiAlnum_of_contains ?_ ‹_›; decide)
+  | (refine Py.contains_of_contains ?_ ‹_›; decide)
   | py_char_any)
 
 /-- goal `AllIn isAscii s` (C15) from a gate on the whole string -/
@@ -651,7 +732,7 @@ elab "py_dict_has" : tactic => withMainContext do
     else pure d)
   let keys := pairKeys d'
   if keys.isEmpty then throwError "py_dict_has: no integer keys"
-  evalTactic (← `(tactic| try simp only [isAsciiDigit, Bool.and_eq_true, decide_eq_true_eq, Py.digitsVal_two,
+  evalTacticNR (← `(tactic| try simp only [isAsciiDigit, Bool.and_eq_true, decide_eq_true_eq, Py.digitsVal_two,
     Py.digitsVal_three, Py.digitsVal_four] at *))
   let g ← getMainGoal
   let tgt := (← instantiateMVars (← g.getType)).consumeMData
@@ -661,9 +742,9 @@ elab "py_dict_has" : tactic => withMainContext do
   for k in keys.reverse do
     let kS : TSyntax `term ← if k < 0 then `(-$(Syntax.mkNumLit (Nat.repr k.natAbs))) else `($(Syntax.mkNumLit (Nat.repr k.natAbs)))
     disj ← `($eS = $kS ∨ $disj)
-  evalTactic (← `(tactic| have hk__ : $disj := by omega))
-  evalTactic (← `(tactic| repeat' (rcases hk__ with hk__ | hk__)))
-  evalTactic (← `(tactic| all_goals first | (exact hk__.elim) | (rw [hk__]; decide)))
+  evalTacticNR (← `(tactic| have hk__ : $disj := by omega))
+  evalTacticNR (← `(tactic| repeat' (rcases hk__ with hk__ | hk__)))
+  evalTacticNR (← `(tactic| all_goals first | (exact hk__.elim) | (rw [hk__]; decide)))
 
 /-! ## closers -/
 
@@ -686,20 +767,134 @@ macro "py_digits" : tactic => `(tactic|
   (try (have hdg__ := Py.allIn_of_B ‹isDigitsB _ = true›
         try simp only [Py.upper_of_asciiDigits hdg__, Py.strip_eq_self_of_asciiDigit _ hdg__] at *)))
 
-/-- for-loop cursors: `h : xs = pref ++ cur :: suff` gives `cur ∈ xs` -/
-macro "py_cursor" : tactic => `(tactic|
-  (try (have hcur__ := Py.mem_of_eq_append_cons ‹_ = _ ++ _ :: _›)))
+/-- `0 ≤ e` for products/sums of comprehension variables, `int()` results and table entries -/
+syntax "py_nonneg" : tactic
+macro_rules | `(tactic| py_nonneg) => `(tactic| first
+  | assumption
+  | omega
+  | (refine Py.nonneg_of_mem_zip_fst ?_ ‹_›; decide)
+  | (refine Py.nonneg_of_mem_zip_snd ?_ ‹_›; decide)
+  | (refine Py.nonneg_of_mem ?_ ‹_›; decide)
+  | exact Py.nonneg_of_mem_enumerate (by omega) ‹_›
+  | (refine Int.mul_nonneg ?_ ?_ <;> py_nonneg)
+  | (refine Int.add_nonneg ?_ ?_ <;> py_nonneg)
+  | (refine Int.emod_nonneg _ (by omega)))
+
+syntax "py_vc" : tactic
+syntax "py_allin" : tactic
+/-- prove `AllIn isAsciiDigit T` by the closure lemmas (slices, strip, zfill, concatenation, `str(n)` for `n ≥ 0` …) -/
+macro_rules | `(tactic| py_allin) => `(tactic| first
+  | assumption
+  | exact Py.allIn_of_B ‹_›
+  | exact Py.allIn_of_alphabet ‹_› (by decide)
+  | exact Py.allIn_contains_of_digits ‹_› (by decide)
+  | exact Py.allIn_contains_of_digits (Py.allIn_of_B ‹_›) (by decide)
+  | (refine AllIn.slice ?_ _ _; py_allin)
+  | (refine AllIn.sliceL ?_ _ _; py_allin)
+  | (refine AllIn.strip ?_; py_allin)
+  | (refine AllIn.lstrip ?_; py_allin)
+  | (refine AllIn.rstrip ?_; py_allin)
+  | (refine AllIn.stripChars ?_ _; py_allin)
+  | (refine AllIn.lstripChars ?_ _; py_allin)
+  | (refine AllIn.zfill ?_ (by decide) _; py_allin)
+  | (refine Py.AllIn.cleanP_digits' ?_ _; py_allin)
+  | (refine Py.AllIn.upper_digits' ?_; py_allin)
+  | (refine AllIn.append ?_ ?_ <;> py_allin)
+  | (refine AllIn.join ?_ (Or.inl (by decide))
+     intro x__ hx__
+     obtain ⟨a__, ha__, hfa__⟩ := (‹∀ r ∈ _, ∃ a ∈ _, _ = Except.ok r›) x__ hx__
+     refine Py.post_of_ok ?_ hfa__
+     mvcgen
+     all_goals (try (mleave; done))
+     all_goals (clear_jps; py_vc))
+  | (refine Py.allIn_reverse ?_; py_allin)
+  | (refine AllIn.repeatStr ?_ _; py_allin)
+  | (exact strOfInt_allDigits (by omega))
+  | (refine strOfInt_allDigits ?_; py_nonneg)
+  | (exact fmtD_allDigits_of_nonneg _ (by omega))
+  | (exact AllIn.nil)
+  | (decide))
+
+/-- the element of a comprehension over the characters of a digit string is a digit string -/
+macro "py_digit_elem" : tactic => `(tactic| first
+  | (refine Py.isDigits_of_mem_chars ?_ ‹_›; py_allin)
+  | (refine Py.isDigits_of_mem_zip_chars_snd ?_ ‹_›; py_allin)
+  | (refine Py.isDigits_of_mem_zip_chars_fst ?_ ‹_›; py_allin)
+  | (refine Py.isDigits_of_mem_enumerate_chars ?_ ‹_›; py_allin)
+  | (refine Py.isDigits_of_mem_reverse_chars ?_ ‹_›; py_allin)
+  | (refine Py.isDigits_of_mem_enumerate_reverse_chars ?_ ‹_›; py_allin)
+  | (refine Py.strIn_of_mem_chars' ?_ ‹_›; py_allin)
+  | (refine Py.strIn_of_mem_zip_chars_snd ?_ ‹_›; py_allin)
+  | (refine Py.strIn_of_mem_zip_chars_fst ?_ ‹_›; py_allin)
+  | (refine Py.strIn_of_mem_enumerate_chars ?_ ‹_›; py_allin)
+  | (refine Py.strIn_of_mem_reverse_chars ?_ ‹_›; py_allin)
+  | (refine Py.strIn_of_mem_enumerate_reverse_chars ?_ ‹_›; py_allin))
 
 /-- the generic closers (no string of known length) -/
-macro "py_close_generic" : tactic => `(tactic| (py_digits; py_cursor; first
+macro "py_close_generic" : tactic => `(tactic| (py_digits; first
   | done
   | assumption
   | exact Py.isDigits_of_alphabet ‹_› (by decide) (by omega) (by omega)
+  | py_digit_elem
+  | py_allin
   | (simp only [List.length_cons, List.length_nil] at *; omega)
   | (refine Py.isDigits_slice_le (Py.allIn_of_B ‹_›) ?_ ?_ <;> (simp (config := {decide := false}) [loIdx, hiIdx] at * <;> omega))
   | (simp (config := {decide := false}) at *; omega)
   | (grind [isDigitsB_iff, IsDigits, AllIn, slice_length, contains_digits_of_isAsciiDigit])
   | (simp_all (config := {decide := false}) [isDigitsB_iff, IsDigits, slice_length]; done)))
+
+open Py.VcImpl in
+/-- fixed-width `^…$` patterns on an exploded subject: per-position character facts (`Py.Re.match_fixed_iff`) -/
+elab "py_rx_fixed" : tactic => withMainContext do
+  for ldecl in ← getLCtx do
+    if ldecl.isImplementationDetail then continue
+    let t ← instantiateMVars ldecl.type
+    let some (_, lhs, rhs) := t.eq? | continue
+    unless lhs.isAppOfArity ``Option.isSome 2 && rhs.isConstOf ``Bool.true do continue
+    let m := lhs.appArg!
+    unless m.isAppOfArity ``Py.Re.match_ 3 do continue
+    let p := m.getArg! 1
+    let l := m.getArg! 2
+    unless p.isConst && isExplicitList l do continue
+    let pS := mkIdent p.constName!
+    let hS ← Term.exprToSyntax (mkFVar ldecl.fvarId)
+    try
+      evalTacticNR (← `(tactic| have hfx__ := ((Py.Re.match_fixed_iff (p := $pS) (ps := _) (k := _) rfl _).mp $hS).1))
+      evalTacticNR (← `(tactic| simp only [Py.Re.Regex.fixedAnchored, Py.Re.Regex.fixedTail, Py.Re.Regex.fixed, List.replicate,
+        List.flatten, List.append_nil, List.nil_append, List.cons_append, List.flatten_cons, List.flatten_nil, List.append_eq,
+        Py.Re.FitsAt, List.getElem?_cons_succ, List.getElem?_cons_zero, Nat.reduceAdd, Option.some.injEq, exists_eq_left',
+        and_true, $pS:ident] at hfx__))
+      evalTacticNR (← `(tactic| try simp (disch := rfl) only [Py.Re.classMatch_digit, Py.Re.classMatch_upper] at hfx__))
+      evalTacticNR (← `(tactic| try simp only [Py.Re.classMatch, Py.Re.litMatch, Py.Re.itemMatch, Py.Re.itemCased, List.any_cons,
+        List.any_nil, Bool.false_and, Bool.or_false, Bool.false_or, Bool.false_eq_true, if_false, ite_false, bne_iff_ne, ne_eq,
+        Bool.not_eq_false, Bool.or_eq_true, Bool.and_eq_true, decide_eq_true_eq, beq_iff_eq] at hfx__))
+    catch _ => pure ()
+
+open Py.VcImpl in
+/-- after `py_explode`: explicit strings that are re-compacted (`cleanP L d`, `upper L`, `strip L`): if all characters of
+`L` are in `0-9A-Z` the three operations are identities -/
+elab "py_recompact36" : tactic => withMainContext do
+  let g ← getMainGoal
+  let mut es : Array Expr := #[(← instantiateMVars (← g.getType))]
+  for ldecl in ← getLCtx do
+    if ldecl.isImplementationDetail then continue
+    es := es.push (← instantiateMVars ldecl.type)
+  let mut lists : Array Expr := #[]
+  for e in es do
+    for t in e.collect (fun t => (t.isAppOfArity ``Py.cleanP 2 && isExplicitList (t.getArg! 0) && !(t.getArg! 0).isAppOfArity ``List.nil 1)
+        || ((t.isAppOfArity ``Py.upper 1 || t.isAppOfArity ``Py.strip 1 || t.isAppOfArity ``Py.lower 1)
+             && isExplicitList (t.getArg! 0) && !(t.getArg! 0).isAppOfArity ``List.nil 1)) do
+      let l := t.getArg! 0
+      unless lists.contains l do lists := lists.push l
+  if lists.isEmpty then return
+  for l in lists do
+    let lS ← Term.exprToSyntax l
+    try
+      evalTacticNR (← `(tactic| have h36__ : List.all $lS (fun c => Py.alnum36.contains c) = true := by
+        (simp only [List.all_cons, List.all_nil, Bool.and_eq_true, Bool.and_true]; (repeat' apply And.intro) <;> (first | py_char_any | decide))))
+    catch _ => pure ()
+  evalTacticNR (← `(tactic| try simp (disch := first | assumption | decide) only
+    [Py.cleanP_of_alphabet, Py.strip_of_alphabet, Py.upper_of_alphabet] at *))
 
 /-- closers after `py_explode; py_eval`: everything is about explicit characters -/
 macro "py_close_concrete1" : tactic => `(tactic| (first
@@ -713,10 +908,12 @@ macro "py_close_concrete1" : tactic => `(tactic| (first
   | (py_clear_big; simp_all (config := {decide := false}) [isDigitsB, IsDigits, Py.digitsVal_two, Py.digitsVal_three, Py.digitsVal_four]; omega)))
 
 macro "py_close_concrete" : tactic => `(tactic|
-  (py_split_mem <;> py_split_ite <;> (py_chars; all_goals (try subst_vars); all_goals first
+  (py_rx_fixed; py_chars; all_goals (try subst_vars); all_goals (try py_recompact36);
+   all_goals (try simp (disch := omega) only [Py.strOfInt_digit] at *); all_goals (try py_eval); all_goals (try subst_vars);
+   all_goals (py_split_mem <;> py_split_ite <;> (py_chars; all_goals (try subst_vars); all_goals first
     | done
     | py_close_concrete1
-    | ((repeat' apply And.intro) <;> py_close_concrete1))))
+    | ((repeat' apply And.intro) <;> py_close_concrete1)))))
 
 /-- exception bookkeeping: `e = .valueError`, `¬ e.caughtBy .valueError` … -/
 macro "py_exc" : tactic => `(tactic|
@@ -731,7 +928,8 @@ macro "py_vc3" : tactic => `(tactic| (py_prep; all_goals first
   | py_exc
   | py_rx_exc
   | py_ascii
-  | (py_split_len <;> (py_explode; py_eval; all_goals (try subst_vars); all_goals py_close_concrete))
+  | exact Py.dictHas_iff.mpr ⟨_, ‹_›⟩
+  | (py_split_len <;> (py_explode; py_eval0; all_goals (py_split_mem <;> (py_eval; all_goals (try subst_vars); all_goals py_close_concrete))))
   | py_close_generic))
 
 namespace Py
@@ -786,7 +984,7 @@ elab "py_alnum36" : tactic => withMainContext do
   unless isExplicitList l do return
   let lS ← Term.exprToSyntax l
   try
-    evalTactic (← `(tactic| have h36__ : List.all $lS (fun c => Py.alnum36.contains c) = true := by
+    evalTacticNR (← `(tactic| have h36__ : List.all $lS (fun c => Py.alnum36.contains c) = true := by
       (simp only [List.all_cons, List.all_nil, Bool.and_eq_true, Bool.and_true]; (repeat' apply And.intro) <;> (first | py_char_any | decide))))
   catch _ => pure ()
 
@@ -818,5 +1016,22 @@ macro "py_c02 " f:ident : tactic => `(tactic| (py_prep; all_goals first
        | (simp (disch := first | assumption | decide) only [Py.strip_strip, Py.strip_of_isDigitsB, Py.strip_of_alphabet]; done)
        | (py_split_len <;> (py_explode; py_eval; all_goals (try subst_vars); all_goals py_chars; all_goals (try subst_vars); all_goals py_alnum36; all_goals (first | done | exact Py.strip_of_alphabet ‹_› (by decide)))))))
 
+/-- the same with the first conjunct `compact v0 = ok T` (evaluate compact under the path conditions) -/
+macro "py_gates_c " f:ident : tactic => `(tactic| (py_prep; all_goals first
+  | done
+  | exact True.intro
+  | (refine ⟨?_, ?_⟩
+     · (unfold $f:ident; first | rfl | (py_compact_eval; first | done | rfl))
+     · first
+       | assumption
+       | ((repeat' apply And.intro) <;> first | assumption | omega | (simp_all; done))
+       | (simp_all; done))
+  | (unfold $f:ident; first | rfl | (py_compact_eval; first | done | rfl))))
+
+/-- `h : compact v = ok v`: turn it into the equation `strip (upper (cleanP v d)) = v` (when compact is unconditional) -/
+macro "py_compact_eq " h:ident f:ident : tactic => `(tactic|
+  (try (unfold $f:ident at $h:ident
+        simp only [Py.clean_eq, bind, Except.bind, pure, Except.pure, Except.ok.injEq] at $h:ident)))
+
 /-- the closing tactic used by the generated contract proofs -/
-macro "py_vc" : tactic => `(tactic| py_vc3)
+macro_rules | `(tactic| py_vc) => `(tactic| py_vc3)
